@@ -12,6 +12,7 @@
 package c16
 
 import (
+	"bytes"
 	"encoding/json"
 	"fmt"
 	"io/fs"
@@ -26,6 +27,7 @@ import (
 	"testing"
 	"time"
 
+	ot "github.com/go-text/typesetting/font/opentype"
 	"github.com/go-text/typesetting/fontscan"
 
 	"verif/internal/corpus"
@@ -87,7 +89,7 @@ func diffFootprint(a, b fontscan.Footprint) string {
 	case len(a.Scripts) != len(b.Scripts):
 		return fmt.Sprintf("Scripts: %d != %d entries", len(a.Scripts), len(b.Scripts))
 	case a.Langs != b.Langs:
-		return fmt.Sprintf("Langs %v != %v", a.Langs, b.Langs)
+		return fmt.Sprintf("Langs %x != %x", [8]uint64(a.Langs), [8]uint64(b.Langs))
 	case a.Aspect.Style != b.Aspect.Style:
 		return fmt.Sprintf("Aspect.Style %d != %d", a.Aspect.Style, b.Aspect.Style)
 	case math.Float32bits(float32(a.Aspect.Weight)) != math.Float32bits(float32(b.Aspect.Weight)):
@@ -173,26 +175,66 @@ func keysOf(x fontscan.VerifIndex) map[pathTime]bool {
 var (
 	smallOnce sync.Once
 	small     []string
+	wide      []string
 )
 
-const smallLimit = 6 << 10
+const (
+	smallLimit = 6 << 10
+	smallPages = 16
+)
 
-// smallFonts returns the sorted corpus-relative paths of the font files of at most 6 KiB.
+// smallFonts returns the sorted corpus-relative paths of the font files of at most 6 KiB whose
+// footprints have at most 16 rune pages in total (so that a serialised index stays small), and
+// that the footprint scanner handles without panicking (panics of the font loader on corpus
+// files are C09's business).
 func smallFonts() []string {
-	smallOnce.Do(func() {
-		for _, rel := range corpus.Files() {
-			switch strings.ToLower(filepath.Ext(rel)) {
-			case ".ttf", ".otf", ".ttc", ".dfont":
-			default:
-				continue
-			}
-			if st, err := os.Stat(corpus.Abs(rel)); err == nil && st.Size() > 0 && st.Size() <= smallLimit {
-				small = append(small, rel)
-			}
-		}
-		sort.Strings(small)
-	})
+	smallOnce.Do(loadSmall)
 	return small
+}
+
+// wideFonts: small files with a large rune coverage (thousands of pages).
+func wideFonts() []string {
+	smallOnce.Do(loadSmall)
+	return wide
+}
+
+func loadSmall() {
+	for _, rel := range corpus.Files() {
+		switch strings.ToLower(filepath.Ext(rel)) {
+		case ".ttf", ".otf", ".ttc", ".dfont":
+		default:
+			continue
+		}
+		st, err := os.Stat(corpus.Abs(rel))
+		if err != nil || st.Size() == 0 || st.Size() > smallLimit {
+			continue
+		}
+		pages := 0
+		if p, _ := call(func() {
+			b, err := corpus.Bytes(rel)
+			if err != nil {
+				panic(err)
+			}
+			lds, err := ot.NewLoaders(bytes.NewReader(b))
+			if err != nil {
+				return
+			}
+			for _, ld := range lds {
+				if fp, err := fontscan.VerifFootprintFromLoader(ld, false); err == nil {
+					pages += len(fp.Runes)
+				}
+			}
+		}); p != nil {
+			continue
+		}
+		if pages <= smallPages {
+			small = append(small, rel)
+		} else {
+			wide = append(wide, rel)
+		}
+	}
+	sort.Strings(small)
+	sort.Strings(wide)
 }
 
 const ttcFont = "harfbuzz/harfbuzz_reference/in-house/fonts/TTC.ttc"
